@@ -306,6 +306,92 @@ Proof.
         fold (shares_of st d0 v0). fold (dtok st d0 v0). lia.
 Qed.
 
+(* undelegateCommon alone (used by the conversion message): as SuperfluidUndelegate without the marker *)
+Lemma undelegate_common_dinv : forall cfg st B sender id st',
+  wf_cfg cfg -> linv cfg st -> dinv cfg st B -> undelegate_common cfg st sender id = Ok st' -> dinv cfg st' B.
+Proof.
+  intros cfg st B sender id st' W I [S D] H.
+  destruct (undelegate_common_linv cfg st sender id st' I H) as [I' _].
+  unfold undelegate_common in H.
+  destruct (s_locks st id) as [l|] eqn:Hl; [|discriminate].
+  destruct (Z.eqb_spec (l_owner l) sender) as [Ho|]; [|discriminate]. cbn [negb] in H.
+  destruct (s_conn st id) as [[d v]|] eqn:Hc; [|discriminate].
+  destruct (conn_marker _ _ _ _ _ I Hc) as [_ [l0 [Hl0 [Hden _]]]]. rewrite Hl in Hl0. injection Hl0 as <-.
+  unfold bind in H.
+  match type of H with match ?c with _ => _ end = _ => destruct c as [st2|] eqn:E2; [|discriminate] end.
+  apply delete_synth_ok in E2. destruct E2 as [_ [l0 [_ E2]]]. ssimpl.
+  pose proof (L_lock_wf _ _ I _ _ Hl) as [Wa _].
+  assert (Hsf : is_sf cfg d = true) by (apply (S_sf _ _ S _ _ _ Hc)).
+  assert (Hm2 : s_mult st2 = s_mult st) by (rewrite E2; reflexivity).
+  rewrite (sf_osmo_value cfg st2 d (l_amt l) W Hsf) in H; [|rewrite Hm2; apply (S_mult _ _ S)|lia]. rewrite Hm2 in H.
+  set (val := value (s_mult st d) (c_rf cfg) (l_amt l)) in *.
+  assert (Hv0 : 0 <= val) by (apply value_nonneg; [apply (S_mult _ _ S)|apply W|lia]).
+  assert (S2 : sinv cfg st2) by (apply (sinv_disconnect cfg st st2 id S); rewrite E2; reflexivity).
+  assert (Hd2 : s_deleg st2 = s_deleg st) by (rewrite E2; reflexivity).
+  assert (Hin : In (d, v) (s_accs st)) by (apply (L_acc _ _ I _ _ Hc)).
+  rename H into E3.
+  pose proof E3 as Fr. apply force_undelegate_frame in Fr. destruct Fr as [Fr Frm]. apply lproj_fields in Fr.
+  destruct Fr as [F1 [F2 [F3 [F4 [F5 [F6 F7]]]]]].
+  pose proof (L_lock_rng _ _ I _ _ Hl) as Hr.
+  assert (Tv : forall d0 v0 id0, id0 <> id -> term_val cfg st' d0 v0 id0 = term_val cfg st d0 v0 id0).
+  { intros d0 v0 id0 N. unfold term_val. rewrite Frm, Hm2, F5, F2, E2. ssimpl. rewrite upd1_other by assumption. reflexivity. }
+  assert (Cv : forall d0 v0, conn_val cfg st' d0 v0 = conn_val cfg st d0 v0 - term_val cfg st d0 v0 id + term_val cfg st' d0 v0 id).
+  { intros d0 v0. unfold conn_val. replace (s_last st') with (s_last st) by (rewrite F3, E2; reflexivity).
+    apply rsum_upd; [assumption|apply Tv]. }
+  assert (T1 : forall d0 v0, term_val cfg st' d0 v0 id = 0).
+  { intros. unfold term_val. rewrite F5, E2. ssimpl. rewrite upd1_same. reflexivity. }
+  assert (T0 : forall d0 v0, term_val cfg st d0 v0 id = if pair_eqb (d, v) (d0, v0) then value (s_mult st d0) (c_rf cfg) (l_amt l) else 0).
+  { intros. unfold term_val. rewrite Hc, Hl. reflexivity. }
+  assert (Cnn : forall d0 v0, 0 <= conn_val cfg st' d0 v0).
+  { intros. apply rsum_nonneg. intros. apply term_val_nonneg; try assumption. rewrite Frm, Hm2. apply (S_mult _ _ S). }
+  destruct (force_spec cfg st2 d v val S2 Hv0) as [[Dn [Ef _]]|[Vn|[[_ [_ Ef]]|[Dn [Hle [st3' [Ef [S3 [Dt [Do _]]]]]]]]]].
+  - rewrite Ef in E3. injection E3 as <-. split; [assumption|].
+    intros d0 v0. unfold drift. rewrite Cv, T1, T0. specialize (D d0 v0). unfold drift in D.
+    destruct (pair_eqb (d, v) (d0, v0)) eqn:E.
+    + apply pair_eqb_eq in E. injection E as <- <-. fold val.
+      assert (Z0 : dtok st2 d v = 0) by (unfold dtok, shares_of; rewrite Dn; reflexivity).
+      assert (Z1 : dtok st d v = 0) by (unfold dtok, shares_of; rewrite <- Hd2, Dn; reflexivity).
+      pose proof (Cnn d v) as Cn. rewrite Cv, T1, T0, pair_eqb_refl in Cn. fold val in Cn. rewrite Z0. rewrite Z1 in D. lia.
+    + unfold dtok, shares_of. rewrite Hd2. fold (shares_of st d0 v0). fold (dtok st d0 v0). lia.
+  - exfalso. apply (S_accval _ _ S2 d v); [rewrite E2; assumption|assumption].
+  - rewrite Ef in E3. discriminate.
+  - rewrite Ef in E3. injection E3 as ->. split; [assumption|].
+    intros d0 v0. unfold drift. rewrite Cv, T1, T0. specialize (D d0 v0). unfold drift in D.
+    destruct (pair_eqb (d, v) (d0, v0)) eqn:E.
+    + apply pair_eqb_eq in E. injection E as <- <-. fold val. rewrite Dt.
+      unfold dtok at 1, shares_of. rewrite Hd2. fold (shares_of st d v). fold (dtok st d v). lia.
+    + apply pair_eqb_neq in E. unfold dtok, shares_of. rewrite Do by congruence. rewrite Hd2.
+      fold (shares_of st d0 v0). fold (dtok st d0 v0). lia.
+Qed.
+
+(* a delegation by an ordinary account keeps the exchange rate at 1 and does not touch the intermediary accounts *)
+Lemma external_delegate_dinv : forall cfg st B v x st', dinv cfg st B -> external_delegate st v x = Ok st' -> dinv cfg st' B.
+Proof.
+  intros cfg st B v x st' [S D] H. pose proof H as Fr. apply external_delegate_frame in Fr.
+  destruct Fr as [Fr [Frm [Frd _]]]. pose proof Fr as Fr'. apply lproj_fields in Fr'. destruct Fr' as [F1 [F2 [F3 [F4 [F5 [F6 F7]]]]]].
+  unfold external_delegate in H. destruct (s_vals st v) as [val|] eqn:Hv; [|discriminate].
+  destruct (Z.ltb_spec x 0) as [|Hx]; [discriminate|].
+  destruct ((v_tokens val =? 0) && (0 <? v_shares val)); [discriminate|].
+  destruct (S_vals _ _ S _ _ Hv) as [Hs Ht]. pose proof P18_pos as HP.
+  assert (Hiss : (if v_shares val =? 0 then d_from_int x else d_quo_int (d_mul_int (v_shares val) x) (v_tokens val)) = x * P18).
+  { destruct (Z.eqb_spec (v_shares val) 0) as [E|N]; [reflexivity|]. unfold d_quo_int, d_mul_int. rewrite Hs.
+    replace (v_tokens val * P18 * x) with (v_tokens val * (x * P18)) by ring. apply quot_mul_l. nia. }
+  rewrite Hiss in H. injection H as <-.
+  split.
+  - constructor; ssimpl.
+    + intros v0 val0 H. unfold upd1 in H. destruct (Z.eqb_spec v0 v); [injection H as <-; cbn [v_shares v_tokens]; split; nia|apply (S_vals _ _ S _ _ H)].
+    + apply (S_deleg _ _ S).
+    + intros d0 v0 H. unfold upd1. destruct (v0 =? v); [discriminate|apply (S_accval _ _ S _ _ H)].
+    + apply (S_nodup _ _ S).
+    + intros v0 val0 H. unfold upd1 in H. destruct (Z.eqb_spec v0 v) as [->|N].
+      * injection H as <-. cbn [v_shares]. pose proof (S_sum _ _ S _ _ Hv). unfold vsum, vterm, shares_of in *. ssimpl. nia.
+      * pose proof (S_sum _ _ S _ _ H). unfold vsum, vterm, shares_of in *. ssimpl. assumption.
+    + apply (S_sf _ _ S).
+    + apply (S_accsf _ _ S).
+    + apply (S_mult _ _ S).
+  - intros d0 v0. specialize (D d0 v0). unfold drift, dtok, shares_of, conn_val, term_val in *. ssimpl. assumption.
+Qed.
+
 (* ---- top-up of a lock: at most 2 more units of drift on the account it is connected to ---- *)
 Definition budget_topup (st : state) (B : Z -> Z -> Z) (id : Z) : Z -> Z -> Z :=
   match s_conn st id with Some (d, v) => upd2 B d v (B d v + 2) | None => B end.
@@ -589,6 +675,25 @@ Proof.
   - apply new_lock_dinv; assumption.
 Qed.
 
+Lemma convert_dinv : forall cfg st B sender id v x env_ok st', wf_cfg cfg -> linv cfg st -> dinv cfg st B ->
+  convert cfg st sender id v x env_ok = Ok st' -> dinv cfg st' B.
+Proof.
+  intros cfg st B sender id v x env_ok st' W I D H. apply (convert_trace cfg) in H; try assumption.
+  destruct H as [st1 [st2 [st3 [l3 [J1 [I1 [J2 [I2 [J3 [I3 [Hl3 [Ne3 [Hx _]]]]]]]]]]]]].
+  assert (D1 : dinv cfg st1 B).
+  { destruct J1 as [->|E1]; [assumption|]. apply (undelegate_common_dinv cfg st B sender id st1 W I D E1). }
+  assert (D2 : dinv cfg st2 B).
+  { destruct J2 as [->|[d0 [v0 E2]]]; [assumption|]. apply (dinv_cproj cfg st1 st2 B D1). eapply delete_synth_cproj; eassumption. }
+  assert (D3 : dinv cfg st3 B).
+  { destruct J3 as [->|[n E3]]; [assumption|]. apply (begin_unlock_dinv cfg st2 B id None st3 n I2 D2 E3). discriminate. }
+  assert (D4 : dinv cfg (del_lock st3 id) B).
+  { apply (dinv_unconn cfg st3 _ B D3); [reflexivity|left; reflexivity|].
+    intros id0 Hn. ssimpl. apply upd1_other. intros ->.
+    destruct (s_conn st3 id) as [[d0 v0]|] eqn:Ec; [|contradiction].
+    destruct (conn_marker _ _ _ _ _ I3 Ec) as [_ [l0 [E0 [_ [E1 _]]]]]. congruence. }
+  apply (external_delegate_dinv cfg (del_lock st3 id) B v x st' D4 Hx).
+Qed.
+
 Theorem step_dinv : forall cfg st B o st' nid,
   wf_cfg cfg -> linv cfg st -> dinv cfg st B -> step cfg st o = Ok (st', nid) -> dinv cfg st' (budget_next cfg st B o st').
 Proof.
@@ -682,6 +787,9 @@ Proof.
     destruct E as [_ [Hc [_ [C [A [M [Dg [V [_ [_ [T K]]]]]]]]]]].
     apply (dinv_unconn cfg st s B D); [unfold sproj; congruence|left; assumption|].
     intros id0 Hn. apply K. intros ->. contradiction.
+  - (* OConvert *)
+    destruct (convert cfg st sender id v x env_ok) as [s|] eqn:E; [|discriminate]. injection H as <- _.
+    eapply convert_dinv; eassumption.
   - (* OWithdraw *)
     unfold unlock_matured_lock in H. destruct (s_locks st id) as [l|] eqn:Hl; [|discriminate].
     destruct (Z.eqb_spec (l_end l) 0) as [|Ne]; [discriminate|]. destruct (s_now st <? l_end l); [discriminate|].
